@@ -40,7 +40,25 @@ def gram(inp):
     return close(G, N * T, 1e-9), "Gram identity max|diff| %.3g" % float(np.max(np.abs(G - N * T)))
 
 
+def lpc(inp):
+    """real data: lpc returns the Yule-Walker (biased autocorrelation) coefficients"""
+    import spectrum
+    from spectrum.lpc import lpc as _lpc
+    m0, p0 = int(inp.get("N", 8)), int(inp.get("p", 3))
+    sizes = [(m0, p0)] + [(m, p) for m in range(3, 34) for p in (1, 2, 3, 4, 8, 15) if p < m]
+    for (m, p) in sizes:
+        if p >= m:
+            continue
+        x = _x(m, False, 7 + m)
+        a, e = _lpc(x.copy(), p)
+        ay, P, _k = spectrum.aryule(x, p, "biased")
+        if not close(np.asarray(a), np.asarray(ay), 1e-8):
+            return False, "lpc(x, %d) != aryule(x, %d) for real data of length %d: max|diff| = %.3g" % (
+                p, p, m, float(np.max(np.abs(np.asarray(a) - np.asarray(ay)))))
+    return True, "lpc coefficients equal the Yule-Walker coefficients (lengths 3..33)"
+
+
 NATIVE = dict(_N)
-NATIVE.update({"aryule": aryule, "gram": gram})
+NATIVE.update({"aryule": aryule, "gram": gram, "lpc": lpc})
 SEARCH = dict(_S)
-SEARCH.update({k: (lambda rng, h: dict(h)) for k in ("aryule", "gram")})
+SEARCH.update({k: (lambda rng, h: dict(h)) for k in ("aryule", "gram", "lpc")})
